@@ -92,6 +92,13 @@ Proof. exact rs0_ok. Qed.
 Theorem c01_cid_refused c m : m_cid m < 2 \/ 65599 < m_cid m -> write_message c m = Err E_CID.
 Proof. exact (cid_refused c m). Qed.
 
+(* WriteMessage terminates for EVERY message (well-formed or not) whenever the output chunk size is
+   positive -- which it always is: it starts at 128 and only a positive announced size replaces
+   it -- and it either refuses the chunk stream id or succeeds leaving a positive chunk size. *)
+Theorem c01_writer_total c m : 0 < c ->
+  write_message c m = Err E_CID \/ exists w c', write_message c m = Ok (w, c') /\ 0 < c'.
+Proof. exact (write_message_total c m). Qed.
+
 (* non-vacuity: a message with an extended timestamp on a 3-byte-form chunk stream, and a
    Set Chunk Size announcing 2^31-1, are in the domain *)
 Example c01_wf_nonvacuous :
@@ -112,3 +119,4 @@ Print Assumptions rtmp_read_total.
 Print Assumptions rtmp_read_reachable.
 Print Assumptions rtmp_initial_reachable.
 Print Assumptions c01_cid_refused.
+Print Assumptions c01_writer_total.
